@@ -166,6 +166,91 @@ class CacheView(Sym):
     def __setitem__(self, k, v):
         raise OutOfSubset('direct cache store (expected through _add_to_cache)')
 
+    def __getattr__(self, name):
+        if name.startswith('_'):
+            raise AttributeError(name)
+        # items() / values() / keys() / get / iteration: the function looks at entries OTHER than the one of its own key - the
+        # per-key ghost invariant says nothing about what it may conclude from them
+        ctx().oblige('cache-is-consulted-for-the-call-s-own-key-only', False, 'invariant', meta=dict(attribute=name))
+        raise OutOfSubset('cache.%s: the cache is consulted other than by the key of the call' % name)
+
+
+class AnyName(Sym):
+    """an ARBITRARY file name: whatever the code asks about it (equality with a literal, a prefix/suffix test, membership, its
+    base name) is answered both ways - every branch the code may take on the name is explored; the same question gets the
+    same answer on a path"""
+    _pytype = str
+
+    def __init__(self, label):
+        self.label = label
+        self._memo = {}
+
+    def _ask(self, what):
+        if what not in self._memo:
+            self._memo[what] = ctx().fresh('name_' + self.label, 'bool')
+        return SBool(self._memo[what])
+
+    def __eq__(self, o):
+        if o is self:
+            return True
+        return self._ask(('eq', repr(o)))
+
+    def __ne__(self, o):
+        return Not(self.__eq__(o))
+
+    def startswith(self, p, *a): return self._ask(('startswith', repr(p)))
+    def endswith(self, p, *a): return self._ask(('endswith', repr(p)))
+    def _sym_in(self, container): return self._ask(('in', repr(container)[:80]))
+    def _sym_contains(self, sub): return self._ask(('contains', repr(sub)))
+    def _sym_str(self): return self
+    def _sym_len(self): return mkint(ctx().fresh('namelen'))
+
+    def derived(self, how):
+        k = ('derived', how)
+        if k not in self._memo:
+            self._memo[k] = AnyName(self.label + '.' + how)
+        return self._memo[k]
+
+    def __getattr__(self, name):
+        if name.startswith('_'):
+            raise AttributeError(name)
+        if name in ('lower', 'upper', 'strip', 'casefold'):
+            return lambda *a: self.derived(name)
+        raise OutOfSubset('str.%s on an arbitrary file name' % name)
+
+    def __repr__(self):
+        return 'AnyName(%s)' % self.label
+
+
+class _OsPath(object):
+    @staticmethod
+    def basename(p):
+        return p.derived('basename') if isinstance(p, AnyName) else os.path.basename(p)
+
+    @staticmethod
+    def dirname(p):
+        return p.derived('dirname') if isinstance(p, AnyName) else os.path.dirname(p)
+
+    @staticmethod
+    def splitext(p):
+        return (p.derived('root'), p.derived('ext')) if isinstance(p, AnyName) else os.path.splitext(p)
+
+    def __getattr__(self, n):
+        f = getattr(os.path, n)
+
+        def g(*a, **k):
+            if any(isinstance(x, AnyName) for x in a):
+                raise OutOfSubset('os.path.%s of an arbitrary file name' % n)
+            return f(*a, **k)
+        return g
+
+
+class _Os(object):
+    path = _OsPath()
+
+    def __getattr__(self, n):
+        return getattr(os, n)
+
 
 class _CM(object):
     def __init__(self, what):
@@ -210,7 +295,7 @@ def _mk_env(V, cache_name, expect_err):
         def load(f):
             return ('json-of', f.what)
 
-    env = {'_add_to_cache': add_to_cache, 'jsonschema': JS, 'json': J, 'open': lambda p, *a: _CM(p), 'localpath': lambda p, *a: p}
+    env = {'_add_to_cache': add_to_cache, 'jsonschema': JS, 'json': J, 'open': lambda p, *a: _CM(p), 'localpath': lambda p, *a: p, 'os': _Os()}
     return env, Validator, added
 
 
@@ -227,7 +312,8 @@ def unit_memo(args):
         V = c.declare_input('uncached_answer_valid', z3.Bool('uncached_answer_valid'))
         ef = c.declare_input('expect_failure', z3.Bool('expect_failure'))
         env, Validator, added = _mk_env(V, cache_name, err)
-        det = ('S', Validator) if fname == 'schema_valid' else ('D', 'S')
+        Sn, Dn = AnyName('S'), AnyName('D')          # the file names are arbitrary: every branch the code takes on them is explored
+        det = (Sn, Validator) if fname == 'schema_valid' else (Dn, Sn)
         cache = CacheView(V, 'cache', det)
         env[cache_name] = cache
         env['_add_to_cache'] = (lambda orig: (lambda ch, t, v, maxlen=20: (cache.key_ok(t), orig(ch, t, v, maxlen))[1]))(env['_add_to_cache'])
@@ -235,8 +321,8 @@ def unit_memo(args):
         holder['f'] = f
         c.extra = (V, ef, added)
         if fname == 'schema_valid':
-            return f('S', validator=Validator, expect_failure=SBool(ef))
-        return f('D', 'S', expect_failure=SBool(ef))
+            return f(Sn, validator=Validator, expect_failure=SBool(ef))
+        return f(Dn, Sn, expect_failure=SBool(ef))
 
     def post(p, c):
         V, ef, added = c.extra
@@ -290,6 +376,63 @@ print(json.dumps(out, default=lambda o: 'OBJECT:' + type(o).__name__))      # an
 '''
 
 
+FORK_SERVER = r'''
+import sys, json, os
+sys.path.insert(0, os.environ.get('ATHLIB_TREE', '/repo'))
+import jsonschema
+from jsonschema.exceptions import SchemaError, ValidationError
+from athlib.utils import schema_valid, valid_against_schema
+import io, contextlib
+def call(c):
+    try:
+        if c[0] == 'schema_valid':
+            return ['ret', schema_valid(c[1], validator=getattr(jsonschema, c[2]), expect_failure=c[3])]
+        return ['ret', valid_against_schema(c[1], c[2], expect_failure=c[3])]
+    except (SchemaError, ValidationError) as e:
+        return ['exc', type(e).__name__]
+    except Exception as e:
+        return ['exc', 'OTHER:' + type(e).__name__]
+hists = json.loads(sys.stdin.read())
+for h in hists:
+    r, w = os.pipe()
+    pid = os.fork()
+    if pid == 0:
+        os.close(r)
+        out = []
+        with contextlib.redirect_stdout(io.StringIO()):
+            for c in h:
+                out.append(call(c))
+        os.write(w, json.dumps(out, default=lambda o: 'OBJECT:' + type(o).__name__).encode())
+        os._exit(0)
+    os.close(w)
+    data = b''
+    while True:
+        b = os.read(r, 65536)
+        if not b:
+            break
+        data += b
+    os.close(r)
+    os.waitpid(pid, 0)
+    print(data.decode() or 'null')
+'''
+
+
+def run_histories_forked(hists):
+    """each history in its own child forked from one interpreter that has only IMPORTED the library (module state as at
+    import: both caches empty) - the fresh-process semantics at a few milliseconds per history"""
+    r = subprocess.run([sys.executable, '-c', FORK_SERVER], input=json.dumps(hists), capture_output=True, text=True, cwd=TREE, timeout=1200)
+    if r.returncode != 0:
+        raise RuntimeError(r.stderr[-2000:])
+    out = [json.loads(l) for l in r.stdout.strip().splitlines()]
+    if len(out) != len(hists):
+        raise RuntimeError('fork server answered %d of %d histories' % (len(out), len(hists)))
+    return out
+
+
+def _forked_chunk(hs):
+    return run_histories_forked(hs)
+
+
 def run_history(hist):
     r = subprocess.run([sys.executable, '-c', HIST, json.dumps(hist)], capture_output=True, text=True, cwd=TREE, timeout=300)
     if r.returncode != 0:
@@ -322,6 +465,18 @@ def concretise(fname, model):
 
 
 def replay(rep):
+    if rep.get('history') and not rep.get('model'):
+        h = rep['history']
+        got = run_history(h)
+        bad = False
+        for c_, r in zip(h, got):
+            want = fresh_answer(c_)
+            if r != want:
+                print('replay %s: history %r\n call %r observed=%r required(fresh process)=%r' % (rep['obligation'], h, c_, r, want))
+                bad = True
+                break
+        print('VIOLATION reproduced' if bad else 'not reproduced on this tree')
+        return 1 if bad else 0
     r, bad = concretise(rep['fname'], rep['model'])
     print('replay %s: %s\n observed=%r required(fresh process)=%r' % (rep['obligation'], r['call'], r['observed'], r['required']))
     print('VIOLATION reproduced' if bad else 'not reproduced on this tree')
@@ -457,6 +612,45 @@ def ground(run, tier, seed):
                         run.violation('history/answer-equals-fresh-process', dict(call='history %r' % (h,), history=h, observed=r,
                                       required=fresh[json.dumps(c_)], fname=c_[0], model={}), True)
                 break
+    # cross-schema pairs: one document against two different schemas, in this order (an answer may not be inferred from the
+    # answer for another schema); every bundled document x every ordered pair of bundled schemas, forked children
+    docs = sorted({d for d, _, _ in pairs})
+    sfiles = ['json/' + x for x in schemas]
+    singles = [[['valid_against_schema', d, sf, ef]] for d in docs for sf in sfiles for ef in (False, True)]
+    fr1 = {}
+    chunks = [singles[i::16] for i in range(16)]
+    for ch, outs1 in zip(chunks, report.pool_map(_forked_chunk, chunks)):
+        if isinstance(outs1, dict):
+            run.checker_error(outs1['_crash'])
+            continue
+        for h, o in zip(ch, outs1):
+            fr1[json.dumps(h[0])] = o[0] if o else None
+    cross = []
+    for d in docs:
+        for s1 in sfiles:
+            for s2 in sfiles:
+                if s1 != s2:
+                    cross.append([['valid_against_schema', d, s1, False], ['valid_against_schema', d, s2, False]])
+                    if tier == 'thorough' or (len(cross) % 3 == 0):
+                        cross.append([['valid_against_schema', d, s1, False], ['valid_against_schema', d, s2, True]])
+    chunks = [cross[i::16] for i in range(16)]
+    nbad = 0
+    for ch, outs2 in zip(chunks, report.pool_map(_forked_chunk, chunks)):
+        if isinstance(outs2, dict):
+            run.checker_error(outs2['_crash'])
+            continue
+        for h, o in zip(ch, outs2):
+            ev += 1
+            for c_, r in zip(h, o or []):
+                want = fr1.get(json.dumps(c_))
+                if want is not None and r != want:
+                    nbad += 1
+                    if nbad <= 3:
+                        run.violation('history/answer-equals-fresh-process', dict(call='history %r' % (h,), history=h, observed=r, required=want,
+                                                                                   fname=c_[0], model={}), True)
+                    break
+    run.record('history/one-document-against-two-schemas/%d-pairs' % len(cross), 'ground', 'refuted' if nbad else 'proved', 'ground-evaluation', 0.0, 'histories')
+    hists = hists + cross
     run.bounded.append(dict(what='histories on the real functions vs fresh-process answers (random incl. cache overflow; every '
                                  '(expect_failure twin, call) pair)', bound='%d histories, lengths 2..60' % len(hists), evaluations=ev,
                             distinct_nontrivial=len(hists), decides='replay/second line only; the per-call obligations decide'))
